@@ -110,7 +110,7 @@ fn exec<D: Doc>(p: &PrepDoc<D>, src: Src, script: &Script) -> Result<Info, Viola
     Ok(Info { digest: h.get(), fired: stats.fired.iter().map(|f| (f.what.clone(), f.at)).collect(), shorts: stats.shorts, steps: stats.calls as u64, outcome })
 }
 
-const BUF_CAPS: [usize; 7] = [1, 2, 3, 7, 8, 64, 8192];
+const BUF_CAPS: [usize; 8] = [0, 1, 2, 3, 7, 8, 64, 8192];
 
 fn seeded_script(r: &mut Rng, len: usize) -> Script {
     let mut steps = Vec::new();
